@@ -182,6 +182,8 @@ func rulesC02(c *Ctx) {
 	ix := c.P.BuildIndex()
 	rulesC02Round2(c, ix)
 	treeMutateRules(c, "C02.mutate")
+	atomicRules(c, "C02.atomic", []string{"storage/mkvs.(*tree).doInsert", "storage/mkvs.(*tree).doRemove", "storage/mkvs.(*tree).Insert", "storage/mkvs.(*tree).RemoveExisting"})
+	hopsRule(c, "C02.writelog")
 	// removal marker is nil, not empty
 	nilMarkerRule(c, "C02.mutate")
 	// pending state cleared only after the durable commit
@@ -289,7 +291,7 @@ func treeMutateRules(c *Ctx, rule string) {
 		cut.AddEdges(es...)
 		// a key longer than the maximum key length cannot have been inserted (Insert rejects it, C16.keylen)
 		if maxLen, ok := c.ConstInt("storage/mkvs/node", "MaxKeyLength"); ok {
-			cut.AddEdges(HeldEdges(fn, `^builtin\.len\(param:key\) > `+itoa(int(maxLen))+`$`)...)
+			cut.AddEdges(HeldEdges(fn, `^builtin\.len\(`+keyOrNormalised+`\) > `+itoa(int(maxLen))+`$`)...)
 		}
 		for _, r := range Returns(fn) {
 			cut.AddEdges(phiNonNilEdges(r)...)
